@@ -15,6 +15,8 @@ pub mod c09;
 pub mod c10;
 pub mod c11;
 pub mod c05;
+pub mod c06;
+pub mod c07;
 pub mod c08;
 pub mod c12;
 pub mod c13;
@@ -22,6 +24,7 @@ pub mod c15;
 pub mod c16;
 pub mod c14;
 pub mod c17;
+pub mod c18;
 pub mod c19;
 pub mod c20;
 
@@ -52,6 +55,9 @@ pub fn run(ctx: &Ctx) -> usize {
 		"C14" => c14::run(ctx),
 		"C17" => c17::run(ctx),
 		"C05" => c05::run(ctx),
+		"C18" => c18::run(ctx),
+		"C07" => c07::run(ctx),
+		"C06" => c06::run(ctx),
 		p => panic!("unknown property {}", p),
 	}
 }
@@ -63,6 +69,9 @@ pub fn replay(ctx: &Ctx, kind: &str, params: &Value) -> Result<(), Fail> {
 		"C02" => c02::case(ctx, kind, params, false),
 		"C03" => c03::case(ctx, kind, params, false),
 		"C04" => c04::case(ctx, kind, params, false),
+		"C06" => c06::case(ctx, kind, params, false),
+		"C07" => c07::case(ctx, kind, params, false),
+		"C18" => c18::case(ctx, kind, params, false),
 		"C05" => c05::case(ctx, kind, params, false),
 		"C17" => c17::case(ctx, kind, params, false),
 		"C14" => c14::case(ctx, kind, params, false),
@@ -82,6 +91,7 @@ pub fn replay(ctx: &Ctx, kind: &str, params: &Value) -> Result<(), Fail> {
 
 /// Oracle on a saved raw input file (regression tier, and fuzz artefacts).
 pub fn regress_file(ctx: &Ctx, path: &str) -> Result<(), Fail> {
+	let _ = &path;
 	if path.ends_with(".json") {
 		let text = std::fs::read_to_string(path).map_err(|e| Fail::new("io", e.to_string()))?;
 		let v: Value = serde_json::from_str(&text).map_err(|e| Fail::new("io", e.to_string()))?;
@@ -94,6 +104,8 @@ pub fn regress_file(ctx: &Ctx, path: &str) -> Result<(), Fail> {
 		"C03" => c03::file_case(&bytes),
 		"C04" => c04::file_case(&bytes),
 		"C17" => c17::file_case(&bytes),
+		"C06" => c06::file_case(&bytes),
+		"C07" => c07::file_case(ctx, path, &bytes),
 		p => panic!("unknown property {}", p),
 	}
 }
